@@ -3,6 +3,9 @@ import SelfiesVerif.Model.Encoder
 import SelfiesVerif.Model.Encoding
 import SelfiesVerif.Model.Config
 import SelfiesVerif.Spec.Derivation
+import SelfiesVerif.Spec.SameMolecule
+import SelfiesVerif.Proofs.KekulizeSound
+import SelfiesVerif.Spec.Matching
 
 namespace SV.Driver
 open SV
@@ -183,6 +186,16 @@ def handle (st : St) (fields : List String) : St × String :=
     let r := encoderFull st.table (decStr s) strict attrib (decNatList tape)
     (st, encPy (fun (p : Str × List AttributionMap) =>
       if attrib then encStr p.1 ++ "\t" ++ encMaps p.2 else encStr p.1) r)
+  | ["hyp", flags, tape, s] =>
+    -- the decidable hypotheses of the theorems, evaluated on the graphs the (modelled) parser produces:
+    -- isPWF (C05_kekulize_sound) on the parsed graph, roundTripReady (C03_roundtrip) on the prepared graph
+    let pw := match smilesToMol (decStr s) false with | .ok g => (if isPWF g then "1" else "0") | .error _ => "-"
+    let rr := match encodePrepare st.table (decStr s) (flags.contains 's') false (decNatList tape) with
+      | .ok g => (if roundTripReady st.table g then "1" else "0")
+      | .error _ => "-"
+    (st, s!"ok\t{pw}\t{rr}")
+  | ["pmcheck", g, m] =>
+    (st, s!"ok\t{isPerfectMatching (decGraph g) ((m.splitOn ",").map fun x => if x == "N" then none else some x.toNat!)}")
   | ["parse", s] => (st, encPy encPMol (smilesToMol (decStr s) false))
   | ["kek", tape, s] =>
     (st, encPy (fun (o : Option PMol) => match o with | none => "N" | some m => encPMol m)
